@@ -140,7 +140,17 @@ impl<N: Unsigned + PrimInt + WrappingAdd + WrappingSub> DecoderCodebook for ExpG
         let mut len = 0u32;
         loop {
             match source.next().transpose()? {
-                Some(false) => len += 1,
+                Some(false) => {
+                    len += 1;
+                    if len > N::max_value().count_ones() {
+                        // No valid code word starts with that many zeros. Bailing out here
+                        // (rather than after the terminating one bit) keeps `len` from
+                        // overflowing on (possibly adversarial) long runs of zeros.
+                        return Err(
+                            SymbolCodeError::InvalidCodeword(InvalidCodeword).into_coder_error()
+                        );
+                    }
+                }
                 Some(true) => break,
                 None => {
                     return Err(
@@ -148,10 +158,6 @@ impl<N: Unsigned + PrimInt + WrappingAdd + WrappingSub> DecoderCodebook for ExpG
                     );
                 }
             }
-        }
-
-        if len > N::max_value().count_ones() {
-            return Err(SymbolCodeError::InvalidCodeword(InvalidCodeword).into_coder_error());
         }
 
         let mut n_plus1 = N::one();
